@@ -9,7 +9,12 @@
 (*              independent Base58Check / Bech32 decoders)                    *)
 (*   a = "dec": network n read the text with structure s and answered         *)
 (*              rk = "none" or rk = kind with hash rh                         *)
+(* A text logged with e = "segx" is a valid Bech32 / Bech32m text with a      *)
+(* version symbol whose further 5-bit symbols (field d) are logged as they    *)
+(* are; Norm decides with Bech32!To8 (BIP173's regrouping rule) whether it    *)
+(* has a program - then it is the Seg text of that program - or none.         *)
 EXTENDS Address, Json, TLCExt
+B == INSTANCE Bech32
 
 Traces == JsonDeserialize(IOEnv.TRACE_FILE)
 Nets == RealNets
@@ -21,7 +26,9 @@ Ev == Traces[tid].ev
 
 EncOk(e) == /\ e.kind \in AddrKindSet /\ Defined(NetOf(e.n), e.kind) /\ Len(e.h) = HashLen(e.kind)
             /\ AddrOf(NetOf(e.n), e.kind, e.h) = e.s
-DecOk(e) == LET D == IF e.s.e = "other" THEN NoAddr ELSE Decode(NetOf(e.n), e.s) IN
+Norm(s) == IF s.e # "segx" THEN s
+           ELSE LET cv == B!To8(s.d) IN IF cv.ok THEN Seg(s.hrp, s.ver, cv.bytes, s.var) ELSE s
+DecOk(e) == LET D == IF e.s.e = "other" THEN NoAddr ELSE Decode(NetOf(e.n), Norm(e.s)) IN
             IF D.ok THEN e.ok /\ e.rk = D.kind /\ e.rh = D.h
             ELSE ~e.ok /\ e.rk = "none"
 EventOk(e) == IF e.a = "enc" THEN EncOk(e) ELSE DecOk(e)
